@@ -31,3 +31,55 @@ package sm9
 //@   modifies ghost(rndpos, id(rand))
 //@   loop 1 invariant k != nil && objof(k) < 0 && ghost(rndpos, id(rand)) >= P0 && (ghost(rndpos, id(rand)) - P0) % 32 == 0
 //@   coverreturns
+
+// ---- SM9 signature (C10), over ASSUMED abstract pairing-group operations (ghost values, see
+// bn256/zz_contracts_verif.go) and the assumed hash-to-range H2V: Verify returns true only if S is a
+// 65-byte uncompressed point, h is in [1, n-1] and h == H2(M || w) for
+// w = e(S, P) * g^h, P the user's public key for (uid, hid).
+//@ func hash trusted
+//@   ensures result != nil && 1 <= ghost(natv, result) && ghost(natv, result) < MODV(objof(orderNat)) && ghost(natv, result) == HASHV(arr(z), offof(z), len(z), h)
+//@   fresh result
+//@   modifies nothing
+
+//@ func (*SignMasterPublicKey).ScalarBaseMult trusted
+//@   ensures err == nil ==> result0 != nil && ghost(gtv, result0) == GTBASEEXP(id(pub), BEV(arr(scalar), offof(scalar), len(scalar)))
+//@   ensures err != nil ==> result0 == nil
+//@   freshornil result0
+//@   modifies nothing
+
+//@ func (*SignMasterPublicKey).GenerateUserPublicKey trusted
+//@   ensures result != nil && ghost(g2v, result) == USERPUB(id(pub), objof(uid), offof(uid), len(uid), hid)
+//@   fresh result
+//@   modifies nothing
+
+//@ func (*SignMasterPublicKey).Verify property C10,C13
+//@   coverreturns
+//@   requires pub != nil && orderNat != nil && MODV(objof(orderNat)) > 1 && MSIZE(objof(orderNat)) == 32
+//@   let N := MODV(objof(orderNat))
+//@   let HV := BEV(arr(h), offof(h), len(h))
+//@   let SA := arr(S)
+//@   bind after call Marshal#1: WA := arr(result)
+//@   bind after call Marshal#1: WO := offof(result)
+//@   bind after call hashH2#1: H2 := ghost(natv, result)
+//@   bind after call Add#1: W := ghost(gtv, result)
+//@   assert before call hashH2#1: len(arg0) == len(hash) + 384 && (forall j :: 0 <= j && j < len(hash) ==> arg0[j] == hash[j]) && (forall j :: 0 <= j && j < 384 ==> arg0[len(hash) + j] == WA[WO + j])
+//@   ensures result ==> len(S) == 65 && SA[offof(S)] == 4 && 1 <= HV && HV < N
+//@   ensures result ==> W == GTMUL(PAIRING(G1ENC(SA, offof(S) + 1), USERPUB(id(pub), objof(uid), offof(uid), len(uid), hid)), GTBASEEXP(id(pub), HV)) && GTENC(WA, WO) == W
+//@   ensures result ==> H2 == HV
+//@   modifies everything
+
+// signing: h = H2(M || w) for w = g^r with r the sampled scalar, l = (r - h) mod n, retried when
+// l == 0, S = [l] dsA; the returned h is the 32-byte encoding of that h
+//@ func (*SignPrivateKey).Sign property C10
+//@   coverreturns
+//@   requires priv != nil && rand != nil && priv.PrivateKey != nil && orderNat != nil && MSIZE(objof(orderNat)) == 32 && MBITS(objof(orderNat)) == 256 && MODV(objof(orderNat)) > 2
+//@   let N := MODV(objof(orderNat))
+//@   bind after call randomScalar#1: R0 := ghost(natv, result0)
+//@   bind after call ScalarBaseMult#1: W := ghost(gtv, result0)
+//@   bind after call hashH2#1: H := ghost(natv, result)
+//@   assert after call ScalarBaseMult#1: err == nil ==> W == GTBASEEXP(id(priv.SignMasterPublicKey), R0)
+//@   assert before call ScalarMult#1: BEV(arr(arg2), offof(arg2), len(arg2)) == (R0 - H) % N && (R0 - H) % N != 0 && sameobj(arg1, priv.PrivateKey)
+//@   ensures err == nil ==> len(h) == 32 && BEV(arr(h), offof(h), 32) == H && len(S) == 65
+//@   loop 1 invariant priv.PrivateKey != nil && orderNat != nil && MODV(objof(orderNat)) == N && MSIZE(objof(orderNat)) == 32 && MBITS(objof(orderNat)) == 256
+//@   heapnonnil
+//@   modifies everything
